@@ -5,7 +5,13 @@ use crate::mem::{get_executable_memory_slice, memory_read_byte, memory_write_byt
 
 pub fn run_code_block(registers: &mut Registers, mem: *mut MemoryAreas) -> u8 {
   let mut status = cpu::STATUS_NORMAL;
+  let start = registers.ip;
   loop {
+    // like a translated block, an interpreted block ends at the boundary
+    // between the fixed and the switchable ROM bank
+    if start < 0x4000 && registers.ip >= 0x4000 {
+      break;
+    }
     match run_next_op(registers, mem) {
       Some((op_status, should_break)) => {
         status = op_status;
